@@ -31,6 +31,7 @@ func init() {
 			ruleFilterEffects(r)
 			ruleLineFilterBuilder(r)
 			ruleOffloadProvenance(r)
+			ruleGetFloatKinds(r)
 		},
 	})
 }
